@@ -132,7 +132,7 @@ def scalar_visit(cls: str):
         c.requires(S.deep_range(v), "float-repr")
         c.paths()
         c.returns("ValidationResult")
-        c.raises(props=("C08",))
+        c.raises(props=("C08", "C12"))
         pseq = S.pathseq_in(c.pre_ph, p)
         c.ensures("result", lambda r, post: z3.And(*S.is_result(ct, r)), ("C02",))
         c.ensures("verdict", lambda r, post: S.no_errors(r) == S.conforms_def(ct, cls, Sx, v), DEP_VERDICT)
@@ -499,7 +499,7 @@ def container_visit(cls: str, visitor: str = "Validator"):
         c.requires(S.deep_range(v), "float-repr")
         c.paths()
         c.returns("ValidationResult")
-        c.raises(props=("C08",))
+        c.raises(props=("C08", "C12"))
         base = S.pathseq_in(c.pre_ph, p)
         c.ensures("result", lambda r, post: z3.And(*S.is_result(ct, r)), ("C02",))
         c.ensures("verdict", lambda r, post: S.no_errors(r) == S.conforms_def(ct, cls, Sx, v), DEP_VERDICT)
